@@ -1,9 +1,11 @@
 (* C10 requests: 1000 run a history in the store model, 1001 property oracle on the implementation's observations,
    1002 one SCCReader OBJECT reads a sequence of documents (model/SccReuse.v: reader_history over the decoder model, the
-        text goes through the Coq tokeniser): [reset field codes; [[offset_us; text] ..]] -> the result of every read. *)
+        text goes through the Coq tokeniser): [reset field codes; [[offset_us; text] ..]] -> the result of every read.
+   1003 one SAMI / DFXP (machine 1), MicroDVD (2), WebVTT (3) reader OBJECT reads a sequence of abstract documents
+        (model/ReaderReuse.v): [machine; reset field codes; options; documents] -> [covers; the result of every read]. *)
 From Coq Require Import List ZArith QArith Bool.
 From PV Require Import lib.Sx lib.Result model.Store model.Iso spec.SpecIso extract.OrCommon extract.IsoWire.
-From PV Require Import model.SccDecoder model.SccTokenise model.SccReuse extract.OrC06.
+From PV Require Import model.SccDecoder model.SccTokenise model.SccReuse extract.OrC06 model.ReaderReuse.
 Import ListNotations.
 Open Scope Z_scope.
 
@@ -31,10 +33,61 @@ Definition req_reader_history (arg : sx) : sx :=
   | _ => bad
   end.
 
+Definition sx_pitem (x : sx) : option pitem :=
+  match x with
+  | SL [SI 0; SI z] => Some (IText z)
+  | SL [SI 1] => Some IBreak
+  | SL [SI 2; b; SI z] => match sx_bool b with Some b => Some (IStyle b z) | None => None end
+  | SL [SI 3; SI a] => Some (IAlign a)
+  | SL [SI 4] => Some IFail
+  | _ => None
+  end.
+Definition of_pnode (n : pnode) : sx :=
+  match n with NText z => SL [SI 0; SI z] | NBreak => SL [SI 1] | NStyle b z => SL [SI 2; of_bool b; SI z] end.
+Definition of_pcap (c : pcap) : sx := SL [of_list of_pnode (pc_nodes c); of_opt SI (pc_align c)].
+Definition sx_mline (x : sx) : option mline :=
+  match x with
+  | SL [SI 0; SI n; SI d] => Some (MHeader n d)
+  | SL [SI 1; SI a; SI b] => Some (MCue a b)
+  | SL [SI 2] => Some MBad
+  | _ => None
+  end.
+Definition sx_zz (x : sx) : option (Z * Z) := match x with SL [SI a; SI b] => Some (a, b) | _ => None end.
+Definition of_zz (p : Z * Z) : sx := SL [SI (fst p); SI (snd p)].
+Definition pick {A} (codes : list Z) (all : list (Z * A)) : list A :=
+  flat_map (fun z => flat_map (fun p => if fst p =? z then [snd p] else []) all) codes.
+
+Definition req_obj_history (arg : sx) : sx :=
+  match arg with
+  | SL [SI 1; fs; _; docs] =>
+      match sx_listof sx_int fs, sx_listof (sx_listof (sx_listof sx_pitem)) docs with
+      | Some fs, Some docs =>
+          let fl := pick fs [(0, PLine); (1, PFaPre); (2, PFaPost)] in
+          SL [of_bool (pcovers fl); of_list (of_result (of_list of_pcap)) (par_history fl pstate0 docs)]
+      | _, _ => bad
+      end
+  | SL [SI 2; fs; _; docs] =>
+      match sx_listof sx_int fs, sx_listof (sx_listof sx_mline) docs with
+      | Some fs, Some docs =>
+          let fl := pick fs [(0, MFps)] in
+          SL [of_bool (mcovers fl); of_list (of_result (of_list of_zz)) (mdvd_history fl mstate0 docs)]
+      | _, _ => bad
+      end
+  | SL [SI 3; fs; SL [st; SI shift]; docs] =>
+      match sx_listof sx_int fs, sx_bool st, sx_listof (sx_listof sx_zz) docs with
+      | Some fs, Some st, Some docs =>
+          let fl := pick fs [(0, VPrev)] in
+          SL [of_bool (vcovers fl); of_list (of_result (of_list of_zz)) (vtt_history (mkV st shift) fl vstate0 docs)]
+      | _, _, _ => bad
+      end
+  | _ => bad
+  end.
+
 Definition dispatch (code : Z) (arg : sx) : option sx :=
   match code with
   | 1000 => Some (req_run arg)
   | 1001 => Some (req_ok_c10 arg)
   | 1002 => Some (req_reader_history arg)
+  | 1003 => Some (req_obj_history arg)
   | _ => None
   end.
